@@ -15,6 +15,12 @@ CLAIMS = {
  "C10": ("Theorems: Intersect has exactly the identifiers present in both operands (each once), its roots are exactly the surviving nodes that are a root of either operand, its edges exactly the edges of either operand between surviving nodes; commutative, idempotent, absorbs a union containing the first operand, empty against the empty list; surviving nodes are the first operand's node updated by the second's (second-operand-wins per attribute, regenerated table).",
          "No hypothesis on the operands for the set clauses; unique identifiers for the node-level clause.",
          "Lean 4 proof (refinement to set intersection) + regenerated tables + differential correspondence"),
+ "C11": ("Theorems (logic): frame theorem — an operation all of whose writes go to storage the call allocated leaves every pre-existing location unchanged, for any trace of reads, writes and allocations; race-freedom — any number of such calls on one shared store have no pair of conflicting accesses, so every interleaving is race-free; at the identity layer a deep copy allocates only fresh tags. Whether each public read-only operation *is* operand-pure is decided on the real objects: stream alias takes deep order-sensitive snapshots of every operand (every field of every message, including the spare capacity of every slice) before and after 40+ read-only / value-returning operations incl. both serializers, stream hist checks that a step changes only the register it writes; the thorough tier adds the race detector.",
+         "PARTIAL: the link between the code and the purity hypothesis is dynamic (snapshots, race detector), not a static effect analysis; Go memory model and runtime are not modelled.",
+         "Lean 4 proof (frame + race-freedom theorems on a write-log model) + snapshot/alias differential on real objects"),
+ "C12": ("Theorems at the identity layer (values as trees of tagged boxes): for every message type (Node, Edge, Person, ExternalReference) the regenerated Copy table gives every field of the schema a form that allocates fresh storage (decide over schema x table; a field added later with a bare alias or left out fails), and a message copied with such forms has only fresh tags at every nesting level and the same value (so it compares equal); a union/intersection node (copy updated from a copy) has only fresh tags whatever fields Update takes. Tied to the code by the regenerated tables and by stream alias: storage-overlap signature between results and operands (unsafe data pointers of slices, map and message pointers), mutation of every reachable container of one side with re-snapshot of the other, two calls sharing an operand, operands with internal pointer sharing.",
+         "Element-wise Copy() of a callee type is modelled as a deep copy when that type's own table obligation holds.",
+         "Lean 4 proof (tag freshness over regenerated copy tables) + alias-signature/mutation differential"),
  "C13": ("Theorems: node, edge and node-list equality are equivalence relations (node-list equality is characterised as equality of lengths, sorted roots, sorted edge strings and the id-to-checksum map, which needs a pigeonhole argument); equality agrees with checksum equality up to an exhibited collision of the hash function (a parameter); the flattened string is invariant under every permutation of set-valued attributes, map entries, suppliers/originators/references, edge targets, and (with unique ids) nodes, edges and roots of a list; every schema attribute is flattened with a treatment fitting its kind (regenerated table). Discrimination is PARTIAL: proved at pair level for scalar attributes; the joined string is not injective (kernel-checked collision witness, known finding KF-C13-separators); single-attribute discrimination over every schema field is decided by the eq stream.",
          "SHA-256 is a parameter H; contact order inside a person is content, not a set.",
          "Lean 4 proof (equivalence, permutation invariance via sorted-list uniqueness) + regenerated tables + differential correspondence"),
